@@ -101,3 +101,35 @@ def whileLoop {σ} (cond : σ → Bool) (body : σ → M σ) : Nat → σ → M 
     else .ok s
 
 end EoVerif.Py
+
+namespace EoVerif.Py
+
+/-! ### unrolling lemmas for the loop combinators (used by `Props/Src*.lean`) -/
+
+theorem forRangeGo_zero {σ} (body : Int → σ → M (σ × Bool)) (i : Int) (s : σ) :
+    forRangeGo body 0 i s = .ok s := rfl
+
+theorem forRangeGo_step {σ} (body : Int → σ → M (σ × Bool)) (k : Nat) (i : Int) (s s' : σ)
+    (h : body i s = .ok (s', false)) : forRangeGo body (k + 1) i s = forRangeGo body k (i + 1) s' := by
+  simp [forRangeGo, h]
+
+theorem forRangeGo_break {σ} (body : Int → σ → M (σ × Bool)) (k : Nat) (i : Int) (s s' : σ)
+    (h : body i s = .ok (s', true)) : forRangeGo body (k + 1) i s = .ok s' := by
+  simp [forRangeGo, h]
+
+theorem forRangeGo_error {σ} (body : Int → σ → M (σ × Bool)) (k : Nat) (i : Int) (s : σ) (e : PyErr)
+    (h : body i s = .error e) : forRangeGo body (k + 1) i s = .error e := by
+  simp [forRangeGo, h]
+
+theorem whileLoop_done {σ} (cond : σ → Bool) (body : σ → M σ) (fuel : Nat) (s : σ) (h : cond s = false) :
+    whileLoop cond body fuel s = .ok s := by
+  cases fuel <;> simp [whileLoop, h]
+
+theorem whileLoop_step {σ} (cond : σ → Bool) (body : σ → M σ) (fuel : Nat) (s s' : σ) (h : cond s = true)
+    (hb : body s = .ok s') : whileLoop cond body (fuel + 1) s = whileLoop cond body fuel s' := by
+  simp [whileLoop, h, hb]
+
+theorem len_map_ofNat (bs : List Nat) : len (bs.map Int.ofNat) = (bs.length : Int) := by
+  simp [len]
+
+end EoVerif.Py
